@@ -390,20 +390,41 @@ func Blocked() {
 	runtime.Gosched()
 }
 
-type onceState struct{ running, done bool }
+type onceState struct {
+	o             *sync.Once
+	running, done bool
+}
 
-// only touched by the single running task, from norace code: no lock, so that
-// no happens-before edge is added that the program itself does not have
-var onces = map[*sync.Once]*onceState{}
+// Only touched by the single running task, from norace code: no lock, so that
+// no happens-before edge is added that the program itself does not have. A
+// plain array, not a map: the runtime's map functions carry race annotations
+// of their own, which //go:norace on the caller does not switch off, and the
+// tasks are unordered for the race detector.
+var (
+	onces  [256]onceState
+	nOnces int
+)
+
+//go:norace
+func onceSlot(o *sync.Once) *onceState {
+	for i := 0; i < nOnces; i++ {
+		if onces[i].o == o {
+			return &onces[i]
+		}
+	}
+	if nOnces == len(onces) {
+		return nil
+	}
+	onces[nOnces].o = o
+	nOnces++
+	return &onces[nOnces-1]
+}
 
 //go:norace
 func onceEnter(o *sync.Once) (run, done bool) {
-	st := onces[o]
-	if st == nil {
-		st = &onceState{}
-		onces[o] = st
-	}
-	if st.done {
+	st := onceSlot(o)
+	if st == nil || st.done {
+		// (more Once values than slots: fall back to the real, blocking Do)
 		return false, true
 	}
 	if !st.running {
@@ -415,7 +436,7 @@ func onceEnter(o *sync.Once) (run, done bool) {
 
 //go:norace
 func onceLeave(o *sync.Once) {
-	if st := onces[o]; st != nil {
+	if st := onceSlot(o); st != nil {
 		st.running, st.done = false, true
 	}
 }
